@@ -119,23 +119,43 @@ def run(ctx):
         it = main.iter
         rng_ok = isinstance(it, ast.Call) and au.method_name(it) == "range" and au.U(it.args[-1]).replace(" ", "") == "len(%s)-1" % seq
         lv = au.target_names(main.target)[0] if au.target_names(main.target) else None
-        starts = [s for s in main.body if isinstance(s, ast.Assign) and isinstance(s.value, ast.Subscript) and au.base_name(s.value) == seq]
-        pair_ok = len(starts) >= 2 and {au.U(s.value.slice).replace(" ", "") for s in starts[:2]} == {lv, "%s+1" % lv}
+        # the interval grid is built from (seq[i], seq[i+1]) - directly or through locals
+        pair_ok = False
+        for x in [x for s in main.body for x in au.walk_own(s) if isinstance(x, ast.Call) and au.method_name(x) == "Timegrid" and len(x.args) >= 2]:
+            st_x = ctx.p.enclosing_stmt(x)
+            ends = [ctx.resolve(fn, a, st_x) for a in x.args[:2]]
+            if all(isinstance(e, ast.Subscript) and au.base_name(e.value) == seq for e in ends):
+                pair_ok = [au.U(e.slice).replace(" ", "") for e in ends] == [lv, "%s+1" % lv]
         ctx.ob("C14.f", fn, "consecutive pairs of the boundary sequence", rng_ok and pair_ok,
                "intervals must be (seq[i], seq[i+1]) for i in range(len(seq) - 1): gaps or overlaps between intervals otherwise", node=main)
 
     # ================================================================= C18.c
     rebase_arrays = set()
-    ts_rebase = [s for s in body if isinstance(s, ast.Assign) and isinstance(s.value, ast.ListComp) and "time_step" in au.U(s.value)]
-    for s in ts_rebase:
-        e = s.value.elt
-        if isinstance(e, ast.Subscript):
-            rebase_arrays.add(("time_step", au.base_name(e.value)))
+    org = ctx.origins(fn)
+
+    def step_arrays(expr, st):
+        """the array through which `expr` maps interval-local steps back: X in X[...] / [X[a] for a in ...] (through locals and
+        .copy()); named 'X' if X is a saved <grid>.I, 'X (not a grid index)' otherwise."""
+        e = ctx.resolve(fn, expr, st)
+        while isinstance(e, ast.Call) and au.method_name(e) in ("copy", "list", "array", "asarray") and (isinstance(e.func, ast.Attribute) or e.args):
+            inner = e.func.value if (isinstance(e.func, ast.Attribute) and au.method_name(e) == "copy") else (e.args[0] if e.args else None)
+            if inner is None:
+                break
+            e = ctx.resolve(fn, inner, st)
+        if isinstance(e, ast.ListComp):
+            e = e.elt
+        if isinstance(e, ast.Subscript) and isinstance(e.value, ast.Name):
+            d = ctx.resolve(fn, e.value, st)
+            return {e.value.id if (isinstance(d, ast.Attribute) and d.attr == "I") else "%s (not a saved grid index)" % e.value.id}
+        return set()
+    for s in body:
+        if isinstance(s, ast.Assign) and any(isinstance(t, ast.Subscript) and au.const_str(t.slice) == "time_step" for t in s.targets):
+            for a in step_arrays(s.value, s):
+                rebase_arrays.add(("time_step", a))
     rec = [x for s in body for x in au.walk_own(s) if isinstance(x, ast.Call) and au.method_name(x) == "append" and x.args and isinstance(x.args[0], ast.Tuple)]
     for x in rec:
-        t0 = x.args[0].elts[0]
-        if isinstance(t0, ast.Subscript):
-            rebase_arrays.add(("record", au.base_name(t0.value)))
+        for a in step_arrays(x.args[0].elts[0], ctx.p.enclosing_stmt(x)):
+            rebase_arrays.add(("record", a))
     arrs = {a for _, a in rebase_arrays}
     ok = len(arrs) == 1 and {k for k, _ in rebase_arrays} == {"time_step", "record"}
     ctx.ob("C18.c", fn, "time steps and nodal records re-based through one array", ok,
